@@ -244,6 +244,12 @@ PTablesP ==
     << <<"infixr", 1, J("+")>>, <<"infixl", 1, J("*")>>, <<"postfix", 0, J("-")>> >>,
     << <<"prefix", 1, J("-")>>, <<"infixr", 2, J("*")>>, <<"infixl", 0, J("+")>>, <<"postfix", 1, J("+")>> >> }
 PrattPTemplates == {<<"pratt", <<"oneof", <<"a">>>>, t, k>> : t \in PTablesP, k \in {"vec", "tuple"}}
+(* binding powers from the whole range of the type (u16): doubling them must not wrap or overflow (C09, C20) *)
+PTablesH ==
+  { << <<"prefix", 65535, J("-")>>, <<"infixl", 32768, J("+")>>, <<"infixr", 32767, J("*")>> >>,
+    << <<"infixl", 65535, J("+")>>, <<"postfix", 65535, J("!")>>, <<"prefix", 40000, J("-")>> >>,
+    << <<"infixr", 65535, J("*")>>, <<"infixl", 65534, J("+")>>, <<"postfix", 32768, J("!")>> >> }
+PrattHTemplates == {<<"pratt", <<"oneof", <<"a">>>>, t, k>> : t \in PTablesH, k \in {"vec", "tuple"}}
 PrattTemplates ==
   {<<"pratt", PAtom, t, k>> : t \in PTables, k \in {"vec", "tuple"}}
   \cup {<<"then", <<"pratt", PAtom, t, "vec">>, RestCap>> : t \in PTables}
@@ -471,8 +477,8 @@ Templates(fam) == CASE fam = "memoT" -> MemoTemplates [] fam = "cfgT" -> CfgTemp
                     \* byte inputs have no text::newline; the radix family looks at int / digits only
                     [] fam = "txtb" -> {g \in TxtTemplates \cup TxtCTemplates : ~HasOp(g, {"newline"}) /\ g \notin {TUKw(<<"E", "a">>), <<"then", TUKw(<<"E", "a">>), RestCap>>}}
                     [] fam = "txtr" -> {<<"then", tp, RestCap>> : tp \in {TDigits(r) : r \in {"2", "8", "10", "16", "36"}} \cup {TInt(r) : r \in {"2", "8", "10", "16", "36"}}} [] fam = "drpT" -> DrpTemplates [] fam = "rcvT" -> RcvTemplates [] fam = "lblT" -> LblTemplates
-                    [] fam = "pratt" -> PrattTemplates [] fam = "prattP" -> PrattPTemplates [] fam = "prattM" -> PrattMTemplates [] fam = "prattRec" -> PrattRTemplates [] fam = "rec" -> RecTemplates [] fam = "lrec" -> LRecTemplates [] fam = "repT" -> RepTemplates
-TemplateFams == {"exT", "exL", "progT", "cfgT", "nstT", "rec", "lrec", "repT", "pratt", "prattP", "prattM", "prattRec", "memoT", "rcvT", "lblT", "drpT", "txt", "txtc", "txtb", "txtr", "gapT", "gapTi", "rcvN", "stat", "rcvE", "extT", "slcT"}
+                    [] fam = "pratt" -> PrattTemplates [] fam = "prattP" -> PrattPTemplates [] fam = "prattH" -> PrattHTemplates [] fam = "prattM" -> PrattMTemplates [] fam = "prattRec" -> PrattRTemplates [] fam = "rec" -> RecTemplates [] fam = "lrec" -> LRecTemplates [] fam = "repT" -> RepTemplates
+TemplateFams == {"exT", "exL", "prattH", "progT", "cfgT", "nstT", "rec", "lrec", "repT", "pratt", "prattP", "prattM", "prattRec", "memoT", "rcvT", "lblT", "drpT", "txt", "txtc", "txtb", "txtr", "gapT", "gapTi", "rcvN", "stat", "rcvE", "extT", "slcT"}
 
 (* Instrumentation (C01, C18): every node of a grammar is wrapped in probe(enter).ignore_then(node).then_ignore(   *)
 (* probe(exit)); a probe consumes nothing, never fails and logs (id, cursor, inspector state, context), so the   *)
